@@ -77,6 +77,15 @@ func runXSchemaCase(p *sx.Node) *sx.Node {
 			res.Append(obsCompat(s, v))
 		case "rt":
 			res.Append(runRT(s, v))
+		case "sr":
+			// Serialize of a native value, then Unserialize of what came out (a one-of must be routable back)
+			o, w, ok := obsSerialize(s, v)
+			out := sx.L(sx.A("sr"), o)
+			if ok {
+				u, _, _ := obsUnser(s, w)
+				out.Append(u)
+			}
+			res.Append(out)
 		case "x":
 			if erased == nil {
 				erased = buildWithEnv(p.List[1], eraseX(p.List[3]))
